@@ -64,7 +64,6 @@ type truth struct {
 	notAsserted int
 	// syntactic features of the executed text (used to name the cause of a wrong verdict)
 	castPrefix bool // a statement written `:type command …`
-	parenCmd   bool // the deprecated `(` quote used as a command
 }
 
 // plainWord: the raw command word is what will be looked up: letters, digits, _ ! . - only, or one of the
@@ -110,9 +109,6 @@ func analyse(text []rune, depth int, t *truth) {
 		t.cmds++
 		if raw := strings.TrimLeft(string(fn.Raw), " \t"); strings.HasPrefix(raw, ":") {
 			t.castPrefix = true
-		}
-		if name == "(" {
-			t.parenCmd = true
 		}
 		if name == lang.ExpressionFunctionName {
 			for _, p := range fn.Parameters {
@@ -328,7 +324,7 @@ func subshells(p []rune, depth int, t *truth, isParam bool) {
 			mode = dq
 		case mode == dq && r == '"':
 			mode = bare
-		case mode == bare && r == '(':
+		case mode == bare && r == '(' && (paren > 0 || isParam && i == 0 || i > 0 && p[i-1] == '%'):
 			paren++
 		case mode == bare && paren > 0 && r == ')':
 			paren--
@@ -434,9 +430,9 @@ func evaluate(line string) (res result) {
 // violates: the one-directional oracle. The clause names the cause:
 //   - "word-never-vetted": a command word ended by a flow token instead of a blank is never compared with
 //     the safe list (see neverVetted).
-//   - otherwise "<base>/<feature>": base = unsafe-command / assignment / file-redirection / function-call /
-//     sub-shell (what the real parser would do), feature = the first syntactic trigger found in the executed
-//     text (see feature), "plain" if none: the tokenizer had its blanks and the verdict is still wrong.
+//   - otherwise the tokenizer had its blanks and the verdict is still wrong: "assignment", "function-call",
+//     "sub-shell" (what the real parser would do), or "unsafe-command/<feature>", "file-redirection/<feature>"
+//     where feature is the first syntactic trigger found in the executed text (see feature), "plain" if none.
 func violates(res result) *finding {
 	if res.panicked != "" || res.unsafeVerdict || res.noFlow || res.tr.rejected || res.tr.bad == nil {
 		return nil
@@ -445,7 +441,11 @@ func violates(res result) *finding {
 	if neverVetted(res.line) {
 		return &finding{"word-never-vetted", base.clause + ": " + base.what}
 	}
-	return &finding{base.clause + "/" + feature(res), base.what}
+	switch base.clause {
+	case "unsafe-command", "file-redirection":
+		return &finding{base.clause + "/" + feature(res), base.what}
+	}
+	return base
 }
 
 // feature: the first syntactic trigger present in the executed text, in a fixed order; "plain" if none.
@@ -454,12 +454,10 @@ func feature(res result) string {
 	switch {
 	case gluedAppend(ex):
 		return "glued-append" // `>>` directly after a non-blank (or at the start): the tokenizer wants a blank before it
-	case res.tr.bad.clause == "function-call":
-		return "inline-call"
 	case res.tr.castPrefix:
 		return "cast-prefix"
-	case res.tr.parenCmd:
-		return "paren-command"
+	case strings.ContainsAny(res.executed, "()"):
+		return "paren" // a parenthesis glued to a word: a quote for the tokenizer, not for the real parser (and the reverse)
 	case strings.ContainsRune(res.executed, '\\'):
 		return "escape"
 	}
@@ -515,19 +513,19 @@ var tokX = func() int {
 	panic("no x token")
 }()
 
-// minimise: replace any contiguous run of tokens by nothing or by one of the simple tokens `x`, `out`, ` `, as
+// minimise: replace any contiguous run of tokens by nothing or by one of the simple tokens `x`, `out`, ` `, `|`, as
 // long as the line still violates the same clause and gets strictly simpler (fewer tokens, then simpler
 // tokens); repeat to a fixpoint. Deterministic (first improving candidate wins).
 func minimise(idx []int, clause string) []int {
 	cur := append([]int{}, idx...)
-	tokOut, tokSp := tokIndex("out"), tokIndex(" ")
+	tokOut, tokSp, tokPipe := tokIndex("out"), tokIndex(" "), tokIndex("|")
 	weight := func(s []int) int {
 		w := 0
 		for _, t := range s {
 			switch t {
 			case tokX:
 				w += 100
-			case tokOut, tokSp:
+			case tokOut, tokSp, tokPipe:
 				w += 101
 			default:
 				w += 102
@@ -540,7 +538,7 @@ func minimise(idx []int, clause string) []int {
 	search:
 		for span := len(cur); span >= 1; span-- {
 			for i := 0; i+span <= len(cur); i++ {
-				for _, repl := range [][]int{nil, {tokX}, {tokOut}, {tokSp}} {
+				for _, repl := range [][]int{nil, {tokX}, {tokOut}, {tokSp}, {tokPipe}} {
 					cand := append(append(append([]int{}, cur[:i]...), repl...), cur[i+span:]...)
 					if weight(cand) >= weight(cur) {
 						continue
